@@ -357,6 +357,13 @@ def g_witness(R, tier):
                        "with expr_wrapper=list the value of every statement is an element of a list display that lives until the block ends: an object "
                        "whose last name is rebound is released later than in Python, so __del__ / weakref callbacks that print run after later output",
                        "class K:\n    def __del__(self):\n        print('released')\nx = K()\nx = None\nprint('after')\n")
+    c06.native_finding(R, "pending_nodes.PendingAssign.get_result/W2-temporaries-do-not-keep-values-alive",
+                       "the temporaries of chained, attribute, subscript and destructuring assignments (__ol_assign_*) and the iterator wrapper of a for loop keep their "
+                       "last value until the scope ends, under every option combination: an object whose last user reference is dropped is finalized later than in Python",
+                       "class K:\n    def __del__(self):\n        print('del')\nclass H:\n    pass\nh = H()\nh.x = K()\nh.x = None\nprint('mid')\na = b = K()\na = b = None\nprint('end')\n")
+    c06.native_finding(R, "pending_nodes.PendingFor.get_result/W3-values-of-loop-body-statements-are-not-collected",
+                       "a loop is a list comprehension over its body: the value of every iteration's body lives until the loop ends (finalizers run late, memory grows with the iteration count)",
+                       "class K:\n    def __init__(self):\n        print('init')\n    def __del__(self):\n        print('del')\ndef make():\n    return K()\ndef run():\n    for i in range(2):\n        make()\nrun()\nprint('end')\n")
 
 
 GROUPS = {"witness": g_witness, "wrappers": g_wrappers, "selector": g_selector, "module": g_module, "module_traversal": None, "simple_statements": g_simple_statements,
